@@ -30,7 +30,7 @@ CHECK_DEADLOCK FALSE
 """ % (", ".join(str(i) for i in ids), kind, trk, MaxOps, MaxC, "TRUE" if emit else "FALSE", "TRUE" if faults else "FALSE")
 
 
-HARNESS_KINDS = {"vec": ["vec"], "dense": ["dense"], "defvec": ["defvec"], "map": ["hash", "btree"], "null": ["null"]}
+HARNESS_KINDS = {"vec": ["vec", "p_vec"], "dense": ["dense", "p_dense"], "defvec": ["defvec", "p_defvec"], "map": ["hash", "btree", "p_hash", "p_btree"], "null": ["null"]}
 PREFIX = {"none": "", "flagged": "f_", "deref": "d_"}
 
 
@@ -139,9 +139,11 @@ def run_suite(name, tier, seed):
                 mc["transitions"] += st.get("transitions", 0)
                 mc["runs"].append({"kind": k, "trk": t, "states": st.get("states"), "transitions": st.get("transitions"), "depth": st.get("depth")})
                 ntlc += len(tl)
-                hk = HARNESS_KINDS[k]
+                hk = [PREFIX[t] + x for x in HARNESS_KINDS[k] if t == "none" or not x.startswith("p_")]
+                if k == "map" and t == "flagged":
+                    hk.append("pf_hash")
                 for i, sc in enumerate(G.dedupe_prefixes(tl)):
-                    scripts.append({"tid": tid, "cfg": {"kinds": [PREFIX[t] + hk[i % len(hk)]], "reg": [G.REGS[i % len(G.REGS)]]},
+                    scripts.append({"tid": tid, "cfg": {"kinds": [hk[i % len(hk)]], "reg": [G.REGS[i % len(G.REGS)]]},
                                     "ops": conv(sc, params["ids"], i), "sweep": "full"})
                     tid += 1
         res["mc"] = mc
